@@ -56,9 +56,23 @@ func feed(sc *SorterScenario) (*sorter.Sorter, error) {
 	if (len(sc.In)+sc.Pad+len(sc.Rem))%2 == 1 {
 		// a sorter is REUSED (re-ingest, the doctor): before this scenario it sorts another table - without a
 		// key and of another width -, is closed and reset; nothing of that may survive into the scenario
-		s.SetColumns([]string{"p", "q"})
+		prior := [][]string{{"2", "x"}, {"1", "y"}, {"1", "x"}, {"2", "x"}}
+		cols := []string{"p", "q"}
+		if (len(sc.In)+sc.Pad)%4 == 1 {
+			// ... or a WIDER and longer one (at a small run size it spills runs and leaves a remainder in memory)
+			cols = []string{"p", "q", "r", "s", "t", "u", "v"}
+			prior = nil
+			for j := 0; j < 37; j++ {
+				prior = append(prior, []string{fmt.Sprint(j % 9), "wide", fmt.Sprint(j), "c3", "c4", "c5-" + fmt.Sprint(j*7919), "last"})
+			}
+		}
+		if len(sc.Rem) == 0 {
+			// (a sorter is reused the way it is driven: ingest sets the columns of every table it sorts; the merge
+			// collector's way never sets columns, so its earlier table did not either - no caller mixes the two)
+			s.SetColumns(cols)
+		}
 		s.PK = nil
-		for _, r := range [][]string{{"2", "x"}, {"1", "y"}, {"1", "x"}, {"2", "x"}} {
+		for _, r := range prior {
 			if err := s.AddRow(r); err != nil {
 				return nil, err
 			}
